@@ -18,6 +18,17 @@ DRVNOTE = (TB + "Hypotheses used as axioms (not proved here): the LR(0)-automato
        "is not modelled. Literature lemma (stated, not mechanised): a shift-reduce run whose every reduction pops rhs(r) and pushes lhs(r) is a reversed rightmost derivation. "
        "The TypeScript driver string is not verified (only the numbers the Go code emits into it).")
 claimed = {
+ "C09": dict(
+   text="Deductive proof of the leaf operations the canonical-collection construction is built from: InsertItem keeps the representation invariant of an item "
+        "set (map == list, no duplicates) and appends exactly when the item is new; InsertGoTO likewise for transitions; LR0.CheckIsExist returns an index iff a state "
+        "with exactly the same item list exists (no duplicate states, no two different item sets identified); InsertItemClosure appends with Index == position; "
+        "getItemCloure returns (r,0) for exactly the rules r whose left-hand side is the symbol after the dot (both inclusions); ComputeIClosure leaves the items "
+        "sorted by (rule, dot), which is what makes the position-wise comparison of CheckIsExist a set comparison.",
+   note=TB + "Assumed: sort.SliceStable yields a permutation ordered by its less function. NOT proved: that ComputeIClosure reaches the closure fixpoint and keeps the "
+        "representation invariant (only item well-formedness and sortedness are proved), and the worklist orchestration ComputeGotoItemNoneRec / ComputeAllGoto "
+        "(state reachability, completeness of transitions, state 0). The bounded LR(1)-merge stand-in of C03 fails when the LR(0) cores are not canonical, but it is "
+        "registered under C03, not here.",
+   design="§5 C09", technique="contract-based deductive verification of the leaf functions (govc VC generator + SMT)"),
  "C03": dict(
    text="Deductive proof, on the real relation builders, of the DeRemer-Pennello side conditions: every pair returned by CalcLookbacks satisfies "
         "p --rhs--> q and every pair returned by CaclIncludeRelation satisfies B -> beta A gamma, gamma nullable, p' --beta--> p, stated with the spec "
